@@ -9,6 +9,7 @@ import (
 	"sort"
 	"strconv"
 	"strings"
+	"sync"
 	"time"
 
 	"github.com/PowerDNS/lightningstream/config"
@@ -210,10 +211,16 @@ func (w *World) lastTxn(i int) int64 {
 }
 
 // Upload = SendOnce, with the bookkeeping syncLoop does around it.
+var sendOnceMu sync.Mutex
+
 func (w *World) Upload(i int) (name string, err error) {
 	in := w.Insts[i]
 	before, _ := w.Bucket.List(context.Background(), "")
+	// SendOnce ends with runtime.GC(): behaviours replayed in parallel are kept from calling it at the same moment
+	// (a stall of the Go runtime with all workers parked in runtime.GC() was seen once; DESIGN.md s.15)
+	sendOnceMu.Lock()
 	txnID, err := in.S.SendOnce(context.Background(), in.Env)
+	sendOnceMu.Unlock()
 	if err != nil {
 		return "", err
 	}
